@@ -198,8 +198,16 @@ func C17(c *run.Ctx) {
 					f.Del("response_mode")
 				}
 			}
+			if k == 2 {
+				// an empty request_uri parameter rides along in the push (only a non-empty one makes the push invalid)
+				f["request_uri"] = []string{""}
+			}
 			out := w.PAR(f, authFor(w, client))
-			hist = append(hist, fmt.Sprintf("push client=%s rt=%q => %s %s", client, f.Get("response_type"), out.S("request_uri"), world.ErrDetail(out.Err)))
+			hist = append(hist, fmt.Sprintf("push client=%s rt=%q empty-request_uri-param=%v => %s %s", client, f.Get("response_type"), k == 2, out.S("request_uri"), world.ErrDetail(out.Err)))
+			if out.Err != nil && k == 2 {
+				c.Unspecified("push-with-empty-request_uri-parameter-refused")
+				continue
+			}
 			if out.Err != nil {
 				c.Inconcl("valid push refused: " + world.ErrDetail(out.Err))
 				continue
